@@ -98,6 +98,8 @@ type Exec struct {
 	callResults   map[string]tval
 	steps         int
 	specArith     bool
+	revealPrefix  string
+	TopFn         *ssa.Function
 	TopKey        string
 	Externals     map[string]bool
 	TopForalls    []*smt.Term
@@ -437,6 +439,11 @@ func (ex *Exec) boundFor(name string) int {
 // revealed: some copy of this symbolic collection has been materialised on this path.
 func (ex *Exec) revealed(lz *LazyV) bool {
 	if _, ok := ex.sliceMemo[lz]; ok {
+		return true
+	}
+	// collections returned by the call whose postconditions are being assumed are looked
+	// into at once (later reads of the world would not be the state the postcondition meant)
+	if ex.revealPrefix != "" && strings.HasPrefix(lz.Nm.Prefix, ex.revealPrefix) {
 		return true
 	}
 	key := lz.Nm.Sub("len").Leaf(smt.Int).String()
